@@ -200,164 +200,25 @@ def revTable : List (Dunder × Dunder) := [
   (.d_rxor, .d_xor)
 ]
 
-/-- accepted (self type, dunder, other type): `a.dunder(b)` type-checks -/
-def accTable : List (NTy × Dunder × NTy) := [
-  (.bool, .d_and, .bool),
-  (.bool, .d_eq, .bool),
-  (.bool, .d_ne, .bool),
-  (.bool, .d_or, .bool),
-  (.bool, .d_xor, .bool),
-  (.float, .d_add, .float),
-  (.float, .d_add, .int),
-  (.float, .d_add, .nat),
-  (.float, .d_eq, .float),
-  (.float, .d_eq, .int),
-  (.float, .d_eq, .nat),
-  (.float, .d_floordiv, .float),
-  (.float, .d_floordiv, .int),
-  (.float, .d_floordiv, .nat),
-  (.float, .d_ge, .float),
-  (.float, .d_ge, .int),
-  (.float, .d_ge, .nat),
-  (.float, .d_gt, .float),
-  (.float, .d_gt, .int),
-  (.float, .d_gt, .nat),
-  (.float, .d_le, .float),
-  (.float, .d_le, .int),
-  (.float, .d_le, .nat),
-  (.float, .d_lt, .float),
-  (.float, .d_lt, .int),
-  (.float, .d_lt, .nat),
-  (.float, .d_mod, .float),
-  (.float, .d_mod, .int),
-  (.float, .d_mod, .nat),
-  (.float, .d_mul, .float),
-  (.float, .d_mul, .int),
-  (.float, .d_mul, .nat),
-  (.float, .d_ne, .float),
-  (.float, .d_ne, .int),
-  (.float, .d_ne, .nat),
-  (.float, .d_pow, .float),
-  (.float, .d_pow, .int),
-  (.float, .d_pow, .nat),
-  (.float, .d_radd, .float),
-  (.float, .d_radd, .int),
-  (.float, .d_radd, .nat),
-  (.float, .d_rfloordiv, .float),
-  (.float, .d_rfloordiv, .int),
-  (.float, .d_rfloordiv, .nat),
-  (.float, .d_rmod, .float),
-  (.float, .d_rmod, .int),
-  (.float, .d_rmod, .nat),
-  (.float, .d_rmul, .float),
-  (.float, .d_rmul, .int),
-  (.float, .d_rmul, .nat),
-  (.float, .d_rpow, .float),
-  (.float, .d_rpow, .int),
-  (.float, .d_rpow, .nat),
-  (.float, .d_rsub, .float),
-  (.float, .d_rsub, .int),
-  (.float, .d_rsub, .nat),
-  (.float, .d_rtruediv, .float),
-  (.float, .d_rtruediv, .int),
-  (.float, .d_rtruediv, .nat),
-  (.float, .d_sub, .float),
-  (.float, .d_sub, .int),
-  (.float, .d_sub, .nat),
-  (.float, .d_truediv, .float),
-  (.float, .d_truediv, .int),
-  (.float, .d_truediv, .nat),
-  (.int, .d_add, .int),
-  (.int, .d_add, .nat),
-  (.int, .d_and, .int),
-  (.int, .d_and, .nat),
-  (.int, .d_eq, .int),
-  (.int, .d_eq, .nat),
-  (.int, .d_floordiv, .int),
-  (.int, .d_floordiv, .nat),
-  (.int, .d_ge, .int),
-  (.int, .d_ge, .nat),
-  (.int, .d_gt, .int),
-  (.int, .d_gt, .nat),
-  (.int, .d_le, .int),
-  (.int, .d_le, .nat),
-  (.int, .d_lshift, .int),
-  (.int, .d_lshift, .nat),
-  (.int, .d_lt, .int),
-  (.int, .d_lt, .nat),
-  (.int, .d_mod, .int),
-  (.int, .d_mod, .nat),
-  (.int, .d_mul, .int),
-  (.int, .d_mul, .nat),
-  (.int, .d_ne, .int),
-  (.int, .d_ne, .nat),
-  (.int, .d_or, .int),
-  (.int, .d_or, .nat),
-  (.int, .d_pow, .int),
-  (.int, .d_pow, .nat),
-  (.int, .d_radd, .int),
-  (.int, .d_radd, .nat),
-  (.int, .d_rand, .int),
-  (.int, .d_rand, .nat),
-  (.int, .d_rfloordiv, .int),
-  (.int, .d_rfloordiv, .nat),
-  (.int, .d_rlshift, .int),
-  (.int, .d_rlshift, .nat),
-  (.int, .d_rmod, .int),
-  (.int, .d_rmod, .nat),
-  (.int, .d_rmul, .int),
-  (.int, .d_rmul, .nat),
-  (.int, .d_ror, .int),
-  (.int, .d_ror, .nat),
-  (.int, .d_rpow, .int),
-  (.int, .d_rpow, .nat),
-  (.int, .d_rrshift, .int),
-  (.int, .d_rrshift, .nat),
-  (.int, .d_rshift, .int),
-  (.int, .d_rshift, .nat),
-  (.int, .d_rsub, .int),
-  (.int, .d_rsub, .nat),
-  (.int, .d_rtruediv, .int),
-  (.int, .d_rtruediv, .nat),
-  (.int, .d_rxor, .int),
-  (.int, .d_rxor, .nat),
-  (.int, .d_sub, .int),
-  (.int, .d_sub, .nat),
-  (.int, .d_truediv, .int),
-  (.int, .d_truediv, .nat),
-  (.int, .d_xor, .int),
-  (.int, .d_xor, .nat),
-  (.nat, .d_add, .nat),
-  (.nat, .d_and, .nat),
-  (.nat, .d_eq, .nat),
-  (.nat, .d_floordiv, .nat),
-  (.nat, .d_ge, .nat),
-  (.nat, .d_gt, .nat),
-  (.nat, .d_le, .nat),
-  (.nat, .d_lshift, .nat),
-  (.nat, .d_lt, .nat),
-  (.nat, .d_mod, .nat),
-  (.nat, .d_mul, .nat),
-  (.nat, .d_ne, .nat),
-  (.nat, .d_or, .nat),
-  (.nat, .d_pow, .nat),
-  (.nat, .d_radd, .nat),
-  (.nat, .d_rand, .nat),
-  (.nat, .d_rfloordiv, .nat),
-  (.nat, .d_rlshift, .nat),
-  (.nat, .d_rmod, .nat),
-  (.nat, .d_rmul, .nat),
-  (.nat, .d_ror, .nat),
-  (.nat, .d_rpow, .nat),
-  (.nat, .d_rrshift, .nat),
-  (.nat, .d_rshift, .nat),
-  (.nat, .d_rsub, .nat),
-  (.nat, .d_rtruediv, .nat),
-  (.nat, .d_rxor, .nat),
-  (.nat, .d_sub, .nat),
-  (.nat, .d_truediv, .nat),
-  (.nat, .d_xor, .nat)
-]
+/-- accepted dunders by (self type, other type): `a.dunder(b)` type-checks for a : self, b : other.
+    (A function by cases rather than one flat list: the kernel evaluates lookups by linear scan.) -/
+def accBy : NTy → NTy → List Dunder
+  | .bool, .bool => [.d_and, .d_eq, .d_ne, .d_or, .d_xor]
+  | .bool, .nat => []
+  | .bool, .int => []
+  | .bool, .float => []
+  | .nat, .bool => []
+  | .nat, .nat => [.d_add, .d_and, .d_eq, .d_floordiv, .d_ge, .d_gt, .d_le, .d_lshift, .d_lt, .d_mod, .d_mul, .d_ne, .d_or, .d_pow, .d_radd, .d_rand, .d_rfloordiv, .d_rlshift, .d_rmod, .d_rmul, .d_ror, .d_rpow, .d_rrshift, .d_rshift, .d_rsub, .d_rtruediv, .d_rxor, .d_sub, .d_truediv, .d_xor]
+  | .nat, .int => []
+  | .nat, .float => []
+  | .int, .bool => []
+  | .int, .nat => [.d_add, .d_and, .d_eq, .d_floordiv, .d_ge, .d_gt, .d_le, .d_lshift, .d_lt, .d_mod, .d_mul, .d_ne, .d_or, .d_pow, .d_radd, .d_rand, .d_rfloordiv, .d_rlshift, .d_rmod, .d_rmul, .d_ror, .d_rpow, .d_rrshift, .d_rshift, .d_rsub, .d_rtruediv, .d_rxor, .d_sub, .d_truediv, .d_xor]
+  | .int, .int => [.d_add, .d_and, .d_eq, .d_floordiv, .d_ge, .d_gt, .d_le, .d_lshift, .d_lt, .d_mod, .d_mul, .d_ne, .d_or, .d_pow, .d_radd, .d_rand, .d_rfloordiv, .d_rlshift, .d_rmod, .d_rmul, .d_ror, .d_rpow, .d_rrshift, .d_rshift, .d_rsub, .d_rtruediv, .d_rxor, .d_sub, .d_truediv, .d_xor]
+  | .int, .float => []
+  | .float, .bool => []
+  | .float, .nat => [.d_add, .d_eq, .d_floordiv, .d_ge, .d_gt, .d_le, .d_lt, .d_mod, .d_mul, .d_ne, .d_pow, .d_radd, .d_rfloordiv, .d_rmod, .d_rmul, .d_rpow, .d_rsub, .d_rtruediv, .d_sub, .d_truediv]
+  | .float, .int => [.d_add, .d_eq, .d_floordiv, .d_ge, .d_gt, .d_le, .d_lt, .d_mod, .d_mul, .d_ne, .d_pow, .d_radd, .d_rfloordiv, .d_rmod, .d_rmul, .d_rpow, .d_rsub, .d_rtruediv, .d_sub, .d_truediv]
+  | .float, .float => [.d_add, .d_eq, .d_floordiv, .d_ge, .d_gt, .d_le, .d_lt, .d_mod, .d_mul, .d_ne, .d_pow, .d_radd, .d_rfloordiv, .d_rmod, .d_rmul, .d_rpow, .d_rsub, .d_rtruediv, .d_sub, .d_truediv]
 
 /-- accepted unary (self type, dunder) -/
 def uaccTable : List (NTy × Dunder) := [
